@@ -116,6 +116,11 @@ impl<S: Stream + Unpin> Stream for MergeUnbounded<S> {
             let poll = Pin::new(&mut groups[*poll_next]).poll_next(cx);
             match poll {
                 Poll::Ready(Some(x)) => {
+                    // start the next poll at the following group, so that one busy group cannot
+                    // starve the others; an emptied group stays under the cursor to be removed
+                    if !groups[*poll_next].streams.is_empty() {
+                        *poll_next += 1;
+                    }
                     return Poll::Ready(Some(x));
                 }
                 Poll::Ready(None) => {
